@@ -314,10 +314,15 @@ func (s *scenario) event(k string) pubsub.Event {
 func (s *scenario) opCall(op string, price int64) answer {
 	s.rec(line{"e": "call", "c": callName[op], "ph": "start", "r": "", "price": price})
 	g := s.gates[op]
-	g.once.Do(func() { close(g.started) })
+	first := false
+	g.once.Do(func() { first = true; close(g.started) })
 	var a answer
 	if s.free != nil {
 		a = s.free.decide(s, op)
+	} else if !first {
+		// the model issues every operation at most once: a repeated call is not scripted; it fails at once
+		s.note("operation " + op + " called again")
+		a = answer{r: "err"}
 	} else {
 		var ok bool
 		a, ok = <-g.release
